@@ -140,8 +140,9 @@ def run(ctx):
                        "Manager.Add / AddNewKeyFromParameters / NewHandle key ids; key generation of every key type) is called n times "
                        "under one key (n = 512 quick / 4096 thorough; fewer where only no-repeat is claimed and a call is slow or large), the "
                        "inputs rotating through classes (plaintext / message / stream length 0, 1, 15, 16, 17, 100; AD / context nil, "
-                       "empty, short) with the monitors also run per class sub-history; key ids also across Delete (scripted redraw "
-                       "of a deleted id, AddKey requiring a deleted id) "
+                       "empty, short) with the monitors also run per class sub-history; key ids also across Delete and through the scripted draw loop "
+                       "(keyset.VerifDraw: a draw colliding with a live id, a deleted id, several in a row; every draw is logged: the id "
+                       "handed out must be the LAST draw and every earlier draw unavailable; AddKey requiring a deleted id is refused) "
                        "across 2 OS processes x 2 handles x 2 primitive instances; every output is an event judged by TLC")
     ctx.assumptions += ["uniformity is checked through necessary conditions only (every bit toggles, every byte position shows "
                         ">= MinDistinct(n) values, XOR of two random regions of one output is itself random); a bias keeping all of "
@@ -184,7 +185,8 @@ MANIFEST = dict(
           "and the XOR of two random regions of one output must itself look random. The calls rotate through input classes "
           "(empty / 1 / 15 / 16 / 17 / 100-byte plaintexts, messages, streams; nil / empty / short AD); every class sub-history of "
           ">= 64 calls is monitored on its own, so an input-dependent fast path that skips the draw is seen. Ids handed out by "
-          "one manager must stay pairwise distinct across Delete (a scripted draw of a deleted id must be re-drawn)."),
+          "one manager must stay pairwise distinct across Delete, and with scripted colliding draws the id handed out must be the "
+          "last value of the random source (Freshness!DrawVerdict), never a value derived from a taken id."),
     note=("Conformance on sampled histories, not a proof. 'Uniformly distributed' is a distributional claim: the specification "
           "can only state NECESSARY conditions with a bounded false-alarm rate (< 2^-40 per run for a truly uniform source; "
           "calculation in Freshness.tla: union bound for repeats, exact occupancy recurrence for distinct byte values) and evaluate "
